@@ -5,8 +5,8 @@ with byte-order mark, UTF-8 without) x sort on/off x 5 sources (Binance, Bitstam
 with/without adjustment), written to a scratch directory and read back through the real event source.
 Bar: every 4-tuple on a 3-level grid either raises InvalidBar or satisfies low <= open, close <= high.
 Trades -> bars: the real RealTimeTradesToBar.main() on the virtual loop with a virtual utc_now; every sequence of <= 5
-(quick) / 6 (thorough) steps, each either a trade at one of 8 offsets of the current window (first / second microsecond,
-middle, last millisecond, its tail, last microsecond, next window, previous window) or "let the window flush".
+(quick) / 6 (thorough) steps, each either a trade at one of 9 offsets of the current window (first / second microsecond,
+middle, last millisecond, its tail, last microsecond, start / middle of the next window, previous window) or "let the window flush".
 """
 import asyncio
 import codecs
@@ -69,7 +69,7 @@ def scenarios(tier, seed):
             for sort in (True, False):
                 out.append(("csv", src, enc, sort))
     for dur in (1, 60):
-        for fd in (0, 0.5):
+        for fd in ((0, 0.5, 1.5) if dur == 1 else (0, 0.5)):  # 1.5: flush delay longer than the bar itself
             for sf in (False, True):
                 for a0 in ACTS:
                     out.append(("trades", dur, fd, sf, a0))
@@ -206,13 +206,13 @@ def run_bar_ctor(res):
 # ---- trades -> bars ---------------------------------------------------------------------------------------------------
 EPOCH = datetime.datetime(2020, 1, 1, 0, 0, 0, tzinfo=UTC)
 US = datetime.timedelta(microseconds=1)
-ACTS = ("b", "b1", "mid", "e_ms", "tail", "e_us", "next", "prev", "FLUSH")
+ACTS = ("b", "b1", "mid", "e_ms", "tail", "e_us", "next", "next_mid", "prev", "FLUSH")
 START_OFF = 0.25
 
 
 def offsets(dur):
     n = dur * 1_000_000
-    return {"b": 0, "b1": 1, "mid": n // 2, "e_ms": n - 1000, "tail": n - 999, "e_us": n - 1, "next": n, "prev": -1}
+    return {"b": 0, "b1": 1, "mid": n // 2, "e_ms": n - 1000, "tail": n - 999, "e_us": n - 1, "next": n, "next_mid": n + n // 2, "prev": -1}
 
 
 def run_trades(dur, flush_delay, skip_first, actions):
@@ -322,6 +322,8 @@ def trades_oracle(dur, flush_delay, skip_first, pushed, bars, out):
 def run_trades_scenarios(sc, tier, res):
     _, dur, fd, sf, a0 = sc
     depth = BOUNDS[tier]["trade_depth"]
+    if tier == "quick" and (dur != 1 or fd == 0):
+        depth -= 1  # the full depth for 1-second bars with a flush delay; one step less for the other combinations
     for n in range(1, depth + 1):
         for tail in itertools.product(ACTS, repeat=n - 1):
             acts = (a0,) + tail
